@@ -834,6 +834,9 @@ func runHistory(w *W, nops int, histIndex int) {
 		if i == 6 && histIndex%3 == 2 {
 			h.directedStaleTimeout1(histIndex / 3)
 		}
+		if i == 9 && histIndex%2 == 0 {
+			h.directedBoundary(histIndex / 2)
+		}
 		if r.Chance(1, 7) {
 			h.lhOp()
 			continue
@@ -1194,6 +1197,85 @@ func (h *hist) directedStaleTimeout1(idx int) {
 	op := map[string]any{"k": "timeout1", "p": w.p1desc(p), "ph": hj(stalePH), "nsr": hx.U(1), "proof": pd, "relayer": 7}
 	if out, _ := w.tx(src, op, respIsNoop, msg); out == "ok" {
 		k.done = true
+	}
+}
+
+// directedBoundary: a packet whose timeout equals the destination's block time at the moment of the receive, to the
+// second (v2) / nanosecond (v1): the receive must be refused (timeout reached: >=), and one block earlier it is accepted
+// for the twin packet.  The coordinator advances time by whole seconds and every chain's next block carries the
+// coordinator's time, so empty blocks steer the destination exactly onto the timeout.
+func (h *hist) directedBoundary(idx int) {
+	w := h.w
+	src := idx % 2
+	dst := 1 - src
+	v2 := (idx/2)%2 == 0
+	_, t0 := w.begin(dst)
+	target := t0 + uint64(60*time.Second) // block time (ns) at which the receive will be attempted
+	steer := func() bool {
+		for {
+			_, t := w.begin(dst)
+			if t == target {
+				return true
+			}
+			if t > target {
+				return false
+			}
+			w.emptyBlock(dst)
+		}
+	}
+	if v2 {
+		id, cp := w.ep(w.pV, src).ClientID, w.ep(w.pV, dst).ClientID
+		tt := target / 1e9
+		y := channeltypesv2.NewPayload(mockv2.PortIDA, mockv2.PortIDB, "v1", "json", []byte("d-ok1"))
+		pays := []channeltypesv2.Payload{y}
+		w.p2desc(channeltypesv2.NewPacket(1, id, cp, tt, pays...))
+		msg := channeltypesv2.NewMsgSendPacket(id, tt, w.ch[src].SenderAccount.GetAddress().String(), pays...)
+		out, res := w.tx(src, map[string]any{"k": "send2", "src": w.ids.id(id), "tt": hx.U(tt), "pay": []any{w.paydesc(y)}, "signer": 7}, nil, msg)
+		if out != "ok" {
+			return
+		}
+		seq := sendSeq(res)
+		q := channeltypesv2.NewPacket(seq, id, cp, tt, pays...)
+		w.p2desc(q)
+		k := &pkt2{src: src, q: q}
+		h.p2 = append(h.p2, k)
+		if seq > w.maxSeq {
+			w.maxSeq = seq
+		}
+		w.steps[len(w.steps)-1]["ret_seq"] = hx.U(seq)
+		w.updateClient(dst, h.clientV2(dst, false))
+		if !steer() {
+			return
+		}
+		version, ph := h.proofPlan(dst, h.clientV2(dst, false), false)
+		proof, pd := w.proofOf(src, w.kCommit2(q.SourceClient, q.Sequence), version)
+		rmsg := channeltypesv2.NewMsgRecvPacket(q, proof, ph, w.signer(dst))
+		w.noteAck2([][]byte{w.script["d-ok1"].Ack})
+		op := map[string]any{"k": "recv2", "q": w.p2desc(q), "ph": hj(ph), "proof": pd, "relayer": 7}
+		if out, _ := w.tx(dst, op, respIsNoop, rmsg); out == "ok" {
+			k.recvd = true
+			k.acks = [][]byte{w.script["d-ok1"].Ack}
+		}
+		return
+	}
+	e := w.ep(w.pU, src)
+	k := h.send1With(src, false, e, e.ChannelConfig.PortID, e.ChannelID, clienttypes.ZeroHeight(), target, []byte("d-ok1"))
+	if k == nil {
+		return
+	}
+	w.updateClient(dst, h.clientV1(dst))
+	if !steer() {
+		return
+	}
+	p := k.p
+	version, ph := h.proofPlan(dst, h.clientV1(dst), false)
+	proof, pd := w.proofOf(src, w.kCommit1(p.SourcePort, p.SourceChannel, p.Sequence), version)
+	rmsg := channeltypes.NewMsgRecvPacket(p, proof, ph, w.signer(dst))
+	w.noteAck1(w.script["d-ok1"].Ack)
+	op := map[string]any{"k": "recv1", "p": w.p1desc(p), "ph": hj(ph), "proof": pd, "relayer": 7}
+	if out, _ := w.tx(dst, op, respIsNoop, rmsg); out == "ok" {
+		k.recvd = true
+		k.ack = w.script["d-ok1"].Ack
 	}
 }
 
